@@ -56,7 +56,7 @@ class SeqCache(evx.System):
     settings['MAX_CACHE_SIZE'] = p.get('max_cache') or INF
     settings['USE_FLOW_CONTROL'] = bool(p.get('flow'))
     settings['MIN_TIMESTAMP_LAG'] = p.get('lag', 0)
-    env.apply_daemon_cache_limits(settings)
+    env.apply_daemon_cache_limits(settings, p.get('conf_variant', 'base'))
     mx = p.get('max_cache')
     self.hard_max = INF if not mx else (mx * 1.05 if p.get('flow') else mx)
     import carbon.cache
@@ -97,6 +97,11 @@ class SeqCache(evx.System):
       evs.append(('tick',))
     if 'c02' in self.oracles:
       evs.append(('query', self.metrics[0]))
+    if ('c02' in self.oracles or 'c10' in self.oracles) and self.p.get('extfull', True):
+      from carbon import state
+      if not state.cacheTooFull:
+        # another buffer of the process (a relay client's send queue) reports "full" through the shared event
+        evs.append(('extfull',))
     return evs
 
   def content(self):
@@ -111,7 +116,9 @@ class SeqCache(evx.System):
       v = float(self.n)
       before = self.overflow
       pre = (len(c), self.content(), sorted(dict.keys(c)))
-      tsx = self.clock.now if (self.p.get('lag') and ts == 2) else ts
+      # timestamp 2 stands for "fresh": the current instant under a lag (not yet eligible), and a timestamp
+      # AHEAD of the daemon's clock (a sender whose clock runs fast) without one - still to be handed out
+      tsx = ts if ts != 2 else (self.clock.now if self.p.get('lag') else self.clock.now + 1000.0)
       try:
         self.proc.process(m, (tsx, v))
       except Exception as e:   # noqa
@@ -145,6 +152,12 @@ class SeqCache(evx.System):
           return v
     elif ev[0] == 'tick':
       self.clock.now += self.p['lag'] + 1
+    elif ev[0] == 'extfull':
+      from carbon import events
+      try:
+        events.cacheFull()
+      except Exception as e:   # noqa
+        return ('exception:%s:%s' % (strat, type(e).__name__), 'events.cacheFull() raised %r' % (e,))
     elif ev[0] == 'query':
       got = dict(c.get(ev[1], {}))
       if got != self.ref.query(ev[1]):
@@ -210,7 +223,8 @@ class SeqCache(evx.System):
       return None
     # with no new input, repeated draining hands out every cached datapoint (destructive probe)
     c = self.cache
-    self.clock.now += 10 ** 6
+    if self.p.get('lag'):
+      self.clock.now += 10 ** 6      # without a lag, time plays no role: nothing may wait for the clock
     held = self.content()
     got = {}
     nones = 0
@@ -247,13 +261,29 @@ def job(arg):
 
 
 def run(ctx, oracles, depth, strategies, max_cache, flows=(False,), lags=(0,), metrics=('m', 'n', 'o')):
+  from . import daemonconf
   jobs = []
+  compared = differing = 0
+  mcs = max_cache if isinstance(max_cache, (list, tuple)) else [max_cache]
+  daemonconf.prefetch([(mc or INF, bool(flow), v) for mc in mcs for flow in flows for v in daemonconf.CACHE_VARIANTS])
   for strat in strategies:
     for mc in (max_cache if isinstance(max_cache, (list, tuple)) else [max_cache]):
       for flow in flows:
+        # the same wanted limits spelled through [cache:<instance>] overrides: the daemon's real start-up
+        # (postOptions) must arrive at the same effective settings; where it does not, that spelling is explored too
+        variants = ['base']
+        base_eff = daemonconf.cache_limits(mc or INF, bool(flow), 'base')
+        for v in daemonconf.CACHE_VARIANTS[1:]:
+          compared += 1
+          if daemonconf.cache_limits(mc or INF, bool(flow), v) != base_eff:
+            variants.append(v)
+            differing += 1
         for lag in (lags if strat == 'timesorted' else (0,)):
-          jobs.append(({'strategy': strat, 'max_cache': mc, 'flow': flow, 'lag': lag, 'oracles': oracles,
-                        'metrics': metrics}, depth))
+          for v in variants:
+            jobs.append(({'strategy': strat, 'max_cache': mc, 'flow': flow, 'lag': lag, 'oracles': oracles,
+                          'metrics': metrics, 'conf_variant': v}, depth))
+  ctx.add(startup_configurations={'instance_override_spellings_compared_with_base': compared,
+                                  'spellings_with_other_effective_limits_explored_separately': differing})
   jobs = core.seeded_order(jobs, ctx.seed)
   res = core.pmap(job, jobs, chunksize=1)
   states = trans = 0
@@ -264,7 +294,7 @@ def run(ctx, oracles, depth, strategies, max_cache, flows=(False,), lags=(0,), m
     exhausted += 1 if st['exhausted'] else 0
     for key, what, hist in st['violations']:
       ctx.violation(key, '%s | sequential history %r strategy=%s max_cache=%s flow=%s lag=%s' % (
-        what, hist, p['strategy'], p['max_cache'], p['flow'], p['lag']),
+        what, hist, p['strategy'], p['max_cache'], p['flow'], '%s conf=%s' % (p['lag'], p.get('conf_variant'))),
         {'engine': 'evx-cacheseq', 'params': p, 'history': hist})
     if st['samples']:
       ctx.sample({'sequential_history': st['samples'][0], 'strategy': p['strategy'], 'max_cache': p['max_cache']})
